@@ -79,4 +79,10 @@ var registry = []prop{
 		Thor:   tierCfg{Shards: 8, Scale: 20, TimeoutS: 1500},
 		Assume: []string{"the harness embeds its own transcription of the published Overpass-turbo polygon-features table (26 keys; the published area key is the area-tag rule)", "tag sets have unique keys"},
 	},
+	{
+		ID: "C16", Pkg: "props/c16", Level: "exploration",
+		Quick:  tierCfg{Shards: 1, Scale: 1, TimeoutS: 300},
+		Thor:   tierCfg{Shards: 16, Scale: 6, TimeoutS: 1800},
+		Assume: []string{"ground-truth rings are simple, outers pairwise disjoint, holes strictly inside their outer and pairwise disjoint, no vertex at (0,0)", "rings are compared as canonical cyclic vertex sequences with exact float equality (coordinates are copied, never computed)"},
+	},
 }
